@@ -53,7 +53,12 @@ pub fn dispatch(id: &str, tier: Tier, replay: Option<&str>, budget: Duration) ->
     }
     match id {
         "C05" | "C18" => e1::run(id, &mut report, budget),
-        "C02" => e2::run(id, &mut report, budget),
+        "C02" => {
+            e2::run(id, &mut report, budget);
+            let n = e6::c02_slice(&mut report);
+            report.add("traces_validated_against_impl", n);
+            report.set("end_to_end_agent_runs", n);
+        }
         "C01" => {
             e2::run(id, &mut report, budget);
             let n = e6::c01_slice(&mut report);
